@@ -4,7 +4,7 @@ CONSTANTS
   MaxPackets = 4
   NR = 3
   RFns <- RFnsSim
-  Crtps <- NoCrtps
+  SendSets <- NoSenders
   MaxSends = 0
   Mode = "router"
   LateRegister = FALSE
